@@ -450,7 +450,10 @@ from include/asl/File.h, src/File.cpp and src/TextFile.cpp as they are after the
 asks again, after flushing; `content()/text()` do not use a cached size), 4c57e14 (`content()/text()/firstBytes()`
 of an object that is already open flush it and read through a separate temporary object, so they start at the
 beginning of the file, work on an object open for writing and leave its position alone) and a48095a (`open()`
-closes the handle the object already has). -/
+closes the handle the object already has), b935145 (`lines()` likewise reads through a temporary when the object is
+open), 630b40d (the whole-file readers close the handle they opened themselves: an object that was not open is
+not open afterwards either, so it can still open itself for writing) and b3be5cd (`File::copy` flushes,
+`File::move` closes the object first). -/
 
 /-- the cached `FileInfo`: nothing, or the size `stat` reported -/
 inductive Cache where
@@ -552,17 +555,14 @@ def Obj.put (d : Disk) (o : Obj) (bs : Bytes) : Bool × Disk × Obj :=
 
 /-- `firstBytes(n)`: an object that is already open flushes and answers through `File(_path).firstBytes(n)`
     (a temporary: the first bytes of the file, this object untouched); otherwise `open(_path)` (READ), one
-    `read` of `n` bytes, and the object stays open -/
+    `read` of `n` bytes, `close()` — which also discards the cache; if the file cannot be opened nothing changes -/
 def Obj.firstBytes (d : Disk) (o : Obj) (n : Nat) : Bytes × Obj :=
   match o.file with
   | some _ => (FileText.firstBytes d o.path n, o)
   | none =>
-    let r := o.lazyOpen d false .read
-    match r.2.file with
-    | none => ([], r.2)
-    | some h =>
-      let x := hread h n
-      (x.1, { r.2 with file := some x.2 })
+    match (openH d o.path false .read).1 with
+    | none => ([], o)
+    | some h => ((hread h n).1, o.close)
 
 /-- `content()`: open ⇒ flush and `File(_path).content()`; not open ⇒ `_info.clear()`, then
     `firstBytes((int)size())` with the size just fetched -/
@@ -584,25 +584,52 @@ def Obj.read (o : Obj) (n : Nat) : Bytes × Obj :=
 /-- `(int)(size() & mask)` for a 64-bit `size()` (−1 when nothing could be cached) -/
 def sizeAnd (sz : Int) : Nat := (sz % 18446744073709551616).toNat &&& sizeMask
 
-/-- `TextFile::lines()`: open for reading only if not open, then read lines from wherever the handle stands up
-    to the end of the file (afterwards the handle is at the end with the indicator set) -/
+/-- `TextFile::lines()`: open ⇒ flush and `TextFile(_path).lines()`; not open ⇒ open for reading, read lines up to the
+    end of the file (the loop also stops on a read error), `close()` -/
 def Obj.lines (d : Disk) (o : Obj) : List Bytes × Obj :=
-  let r := o.lazyOpen d true .read
-  match r.2.file with
-  | none => ([], r.2)
-  | some h => (linesLoop (readLineChunk - 2) h.rs [], { r.2 with file := some { h with rs := { rest := [], eof := true } } })
+  match o.file with
+  | some _ => (linesOf d o.path, o)
+  | none =>
+    match (openH d o.path true .read).1 with
+    | none => ([], o)
+    | some h => (linesLoop (readLineChunk - 2) h.rs [], o.close)
 
 /-- `TextFile::text()`: open ⇒ flush and `TextFile(_path).text()`; not open ⇒ `_info.clear()`, `n` from the size
-    just fetched, open for reading, then the body.  The position the handle is left at is not modelled (the
-    protocol refuses `read`/`lines` through this object until it is closed or reopened). -/
+    just fetched, open for reading (on failure: the empty string, the cache keeps what `size()` fetched), the body,
+    `close()` -/
 def Obj.text (d : Disk) (o : Obj) : Option Bytes × Obj :=
   match o.file with
   | some _ => (FileText.textOf d o.path, o)
   | none =>
     let s := ({ o with info := .empty } : Obj).size d
-    let r := s.2.lazyOpen d true .read
-    match r.2.file with
-    | none => (some [], r.2)
-    | some h => (textN (sizeAnd s.1) h.rs.rest, { r.2 with file := some { h with rs := { rest := [], eof := true } } })
+    match (openH d o.path true .read).1 with
+    | none => (some [], s.2)
+    | some h => (textN (sizeAnd s.1) h.rs.rest, o.close)
+
+/-- `File::copy(to)`: `if (_file) flush();` then `Directory::copy(_path, to)` — the object is otherwise untouched -/
+def Obj.copy (d : Disk) (o : Obj) (dst : Nat) : Bool × Disk := FileText.copy d o.path dst
+
+/-- `File::move(to)`: `if (_file) close();` then `Directory::move(_path, to)` -/
+def Obj.move (d : Disk) (o : Obj) (dst : Nat) (xdev : Bool) : (Bool × Disk) × Obj :=
+  (FileText.move d o.path dst xdev, if o.file.isSome then o.close else o)
+
+/-! ## a destination that accepts no byte (`/dev/full`: every `write(2)` fails with ENOSPC)
+
+`fopen("wb")` succeeds and `fwrite` of a block that fits the stdio buffer "succeeds"; the failure only shows when
+the buffer is flushed.  `Directory::copy` flushes the destination and tests its error indicator before it reports
+success (repair 78aac25), so only an empty source can be "copied"; `Directory::move` falls back to copy + remove
+(`rename` fails with `EXDEV`) and removes the source only after a successful copy. -/
+
+def copyToFull (d : Disk) (src : Nat) : Bool × Disk :=
+  match d src with
+  | none => (false, d)
+  | some c => (c.isEmpty, d)
+
+def moveToFull (d : Disk) (src : Nat) : Bool × Disk :=
+  match d src with
+  | none => (false, d)
+  | some _ =>
+    let r := copyToFull d src
+    if r.1 then remove r.2 src else (false, r.2)
 
 end AslModel.FileText
